@@ -8,16 +8,16 @@ ASSUME = [
     "short transfers: the first two transfers of each device per call return an arbitrary legal count 1..n (symbolic), later ones are complete (bound)",
     "the claims under short transfers are the SAME functional claims as under complete transfers (result and final logical stream as a function of the pre-state), hence chunking cannot change bytes or results",
     "fault: exactly one device (or page-layer) operation, at a symbolic index, returns an error; claim: the crate call in progress returns Err (never Ok, never a panic); Drop is exempt",
-    "upper layers (blob, finalize) are checked against a page layer that may fail at any operation (contract level) and finalize additionally on the real page layer with device faults",
+    "upper layers (blob, finalize, point cloud writer new/add_point/finalize) are checked against a page layer that may fail at any operation (contract level) and finalize additionally on the real page layer with device faults",
     "pre-states: arbitrary INV states, device <= 8 pages; write <= 2100 B; XML <= 600 B for the real-page-layer fault run",
 ]
 
 
 def run(ctx):
-    from mirsym import spec_blob, spec_e57, spec_page, spec_reader
+    from mirsym import spec_blob, spec_e57, spec_page, spec_pcw, spec_reader
     tier = ctx["tier"]
     scen = (spec_page.short_and_fault_scenarios(tier) + spec_page.reader_short_and_fault_scenarios(tier) + spec_blob.fault_scenarios(tier)
-            + spec_e57.fault_scenarios(tier) + spec_reader.scenarios(tier)[2:3])
+            + spec_e57.fault_scenarios(tier) + spec_reader.scenarios(tier)[2:3] + spec_pcw.fault_scenarios(tier))
     obls, samples = mlane.run_scenarios("C16", "O16", scen, ctx, "arbitrary INV states <= 8 pages; <= 2 short transfers per device per call; 1 fault at any operation index")
     return dict(obligations=obls, functions=FUNCTIONS, assumptions=ASSUME, samples=samples,
                 extra={"engine": "mirsym (MIR -> z3 5.1)", "mir_regenerated_from": "/repo working tree"})
